@@ -78,6 +78,8 @@ fn declare() {
     allow_binops(0);
     allow_unops(0);
     allow_mask(1 << K_VARIABLE);
+    // the sliced sequences hold scalars only: no compound value needs its type computed
+    crate::variable::verif_valgate::allow_vals(0);
 }
 /// presence of start / stop / step is enumerated concretely (mask bits 0,1,2): a symbolic
 /// `Option<InstructionWithStr>` would merge two instruction shapes; the present bounds are
